@@ -147,7 +147,26 @@ async fn unit_case(rng: &mut Rng, sh: &mut Shard) -> Result<bool, (String, Strin
     }
     sh.add("unit_offloaded_byte_reads", provider.1.load(std::sync::atomic::Ordering::Relaxed));
     // merge: superset or refusal
-    let other_cfg = if rng.chance(2, 3) { cfg.clone() } else { random_bloom_cfg(rng) };
+    // the other side: same configuration, an unrelated one, or one that differs in exactly one dimension
+    // (same bit count / other hasher count, same hashers / other bit count): what a group sees when the
+    // bloom configuration was changed between two runs over the same directory
+    let other_cfg = match rng.below(6) {
+        0 | 1 | 2 => cfg.clone(),
+        3 => random_bloom_cfg(rng),
+        4 => {
+            let mut c = cfg.clone();
+            c.hashers_count = if c.hashers_count >= 2 && rng.chance(1, 2) { c.hashers_count - 1 } else { c.hashers_count + 1 };
+            sh.add("unit_merges_other_hasher_count", 1);
+            c
+        }
+        _ => {
+            let mut c = cfg.clone();
+            c.max_buf_bits_count = (c.max_buf_bits_count / 2).max(1);
+            c.elements = c.elements.max(1) * 2;
+            sh.add("unit_merges_other_bit_count", 1);
+            c
+        }
+    };
     let other = Bloom::new(other_cfg.clone());
     let mut other_keys = Vec::new();
     for _ in 0..rng.range(0, 50) {
@@ -266,7 +285,23 @@ impl BloomProvider<ArrayKey<8>> for TestChild {
 }
 
 fn mk_child(rng: &mut Rng, id: u64, bloom_cfg: &Option<BloomConfig>, pool: &[[u8; 8]]) -> TestChild {
-    let filter = CombinedFilter::new(bloom_cfg.clone().map(Bloom::new), RangeFilter::new());
+    // one child in six was "written under another configuration": other hasher count, no bloom at all, or other bit count
+    let mut cfg = bloom_cfg.clone();
+    if rng.chance(1, 6) {
+        cfg = match (cfg, rng.below(3)) {
+            (Some(mut c), 0) => {
+                c.hashers_count += 1;
+                Some(c)
+            }
+            (Some(mut c), 1) => {
+                c.max_buf_bits_count = c.max_buf_bits_count / 2 + 1;
+                Some(c)
+            }
+            (Some(_), _) => None,
+            (None, _) => Some(BloomConfig { elements: 60, hashers_count: 2, max_buf_bits_count: 333, buf_increase_step: 3, preferred_false_positive_rate: 0.05 }),
+        };
+    }
+    let filter = CombinedFilter::new(cfg.map(Bloom::new), RangeFilter::new());
     let mut keys = BTreeSet::new();
     for _ in 0..rng.range(0, 12) {
         let k = *rng.pick(pool);
@@ -410,6 +445,8 @@ fn tweak(cfg: &mut Cfg, rng: &mut Rng) {
     cfg.group = rng.range(2, 9) as usize;
     cfg.bloom = *rng.pick(&[1u8, 1, 1, 0]);
     cfg.allow_dup = true;
+    // a third of the histories re-open the directory under another bloom configuration at every restart
+    cfg.bloom_flip = rng.chance(1, 3);
 }
 
 pub fn storage_spec() -> Spec {
